@@ -28,7 +28,10 @@ def _seq_worker(seq):
         try:
             os.close(r)
             from .. import session
-            data = _json.dumps(session.run_seq(seq)).encode()
+            try:
+                data = _json.dumps(session.run_seq(seq)).encode()
+            except core.StimulusTimeout:
+                data = _json.dumps({core._HANG: "timeout"}).encode()
             with os.fdopen(w, "wb") as f:
                 f.write(data)
         finally:
